@@ -1,6 +1,6 @@
 """C06 — `depends(watch=True)` methods run exactly once per change of a dependency.
-Correspondence: Lean `ParamVerif.Depends.{dependsTable, instantiate, runOp}` vs classes built with
-`type(...)` on the real `param`; oracle: `ParamVerif.Depends.specAll`."""
+Correspondence: Lean `ParamVerif.Depends.{dependsTable, instantiate, runOp, runC}` vs classes built with
+`type(...)` on the real `param`; oracle: `ParamVerif.Depends.specAll` (counts) and `specTraces` (units of change)."""
 import glob
 import json
 import os
@@ -23,14 +23,14 @@ SOURCES = [('param/depends.py', 'depends'), ('param/parameterized.py', 'Paramete
 BUDGET_S = {'quick': 50, 'thorough': 400}
 TRUSTED = [
     'statements in lean/ParamVerif/Props/C06.lean',
-    'spec-side oracle lean/ParamVerif/Depends/Spec.lean (expected number of calls = 1 iff a dependency of the method AS RESOLVED ON THE INSTANTIATED CLASS was assigned a different value, else 0; one table entry per watching method; on_init once)',
-    'harness/props/c06.py adapter (classes built with type(); generated methods append "name@definingClass" to a log; reads cls.param._depends["watch"] and param.method_dependencies for observation)',
+    'spec-side oracle lean/ParamVerif/Depends/Spec.lean (expected number of calls = 1 iff a dependency of the method AS RESOLVED ON THE INSTANTIATED CLASS was assigned a different value, else 0; one table entry per watching method; on_init once) and lean/ParamVerif/Depends/CascadeSpec.lean (the same count for every unit of change of the trace: a statement not inside another statement, its direct invocations, the keys its assignments changed)',
+    'harness/props/c06.py adapter (classes built with type(); generated methods append "name@definingClass" to a log and to the trace tree, then perform their assignments; assignments are bracketed by the harness, which reads the value held before and obj.param._BATCH_WATCH; the nodes of the keys of param.update are written by the harness from the values held before the call; reads cls.param._depends["watch"] and param.method_dependencies for observation)',
     'CPython computes __mro__ (sent with the case and asserted equal to the real one); attribute lookup along the MRO',
-    'the compact dispatcher of Depends/Instance.lean is cross-checked per case against Dispatch.Model.run by the driver',
+    'the cascade interpreter of Depends/Cascade.lean is cross-checked per case against the compact dispatcher of Depends/Instance.lean (log-only methods) and against Dispatch.Model.run by the driver',
     'correspondence is differential testing: model = code only on the hierarchies and programs executed',
 ]
 ASSUMPTIONS = [
-    'Parameter names and method names are disjoint; methods only log, except that an on_init method may assign one parameter on its first invocation (i.e. during construction; no queued watchers in those cases); Number parameters holding integers',
+    'Parameter names and method names are disjoint; methods log; an on_init method may assign one parameter on its first invocation (i.e. during construction; no queued watchers in those cases); watch=True methods may assign parameters at every invocation (constant values, only parameters of higher index than every dependency of the method, so cascades end; watch="queued" methods and decorated functions only log; method bodies neither batch nor raise); Number parameters holding integers',
     'Parameter attributes exercised: bounds (only the upper bound varies, never rejecting a value) and step',
     'dotted (sub-object) dependencies are C07; async / generator methods, class-level assignment and param.trigger are outside',
     'function form: all Parameter objects belong to the one instance',
@@ -38,9 +38,11 @@ ASSUMPTIONS = [
 RULE = ('directed prefix (single/multiple inheritance overrides: decorated, undecorated, watch=False, different dependency '
         'sets, method-name dependencies, value+slot dependencies, on_init, function form, unresolvable and cyclic specs) + random '
         'hierarchies of 1-5 classes (chains, diamonds, random bases with a consistent MRO), 2-4 Parameters, 1-3 methods with '
-        'random dependency sets over visible parameters / p:bounds / p:step / other methods, then 3-8 operations '
-        '(assignment, slot assignment, param.update, batch_call_watchers blocks).  Compared with the model: the class table, '
-        'method_dependencies of every method, the constructor log and the log of every operation.  non-trivial = at least '
+        'random dependency sets over visible parameters / p:bounds / p:step / other methods; in 3 of 10 cases instead one or two '
+        'classes whose watch=True methods assign 1-3 parameters; then 3-8 operations (assignment, slot assignment, param.update, '
+        'batch_call_watchers blocks nested up to depth 3).  Compared with the model: the class table, method_dependencies of every '
+        'method, the constructor log, the log and the trace tree (assignments with old/new value and batching flag, invocations, '
+        'blocks) of every operation.  non-trivial = at least '
         'one method was invoked by an operation and the oracle judged >=1 step; distinct = distinct canonical case')
 COVERAGE_TARGETS = ['op:nested-batch', 'method:assigning', 'cascade:nested-call', 'init:assigning-on_init', 'table:inherited-entry', 'table:own-entry', 'method:not-watched', 'install:several-groups',
                     'install:one-group', 'install:on_init', 'install:function-form', 'op:set', 'op:setslot', 'op:update',
